@@ -3,6 +3,7 @@ mod dynty;
 mod gen;
 mod obs;
 mod ops;
+mod schema_ops;
 
 use gen::Gen;
 use ops::Budget;
@@ -26,9 +27,30 @@ fn main() {
     if prop == "C04" || prop == "C16" {
         ops::c04_corpus(&mut out);
     }
-    for e in &cat {
-        let mut ge = g.fork();
-        (e.run)(prop, &mut ge, &budget, &mut out);
+    if prop == "C14" {
+        for e in &catalogue::zst_catalogue() {
+            let mut ge = g.fork();
+            (e.run)(prop, &mut ge, &budget, &mut out);
+        }
+    } else {
+        for e in &cat {
+            let mut ge = g.fork();
+            (e.run)(prop, &mut ge, &budget, &mut out);
+        }
+    }
+    if ["C08", "C09", "C10", "C17"].contains(&prop) {
+        for (_, run) in catalogue::schema_catalogue() {
+            let mut ge = g.fork();
+            run(&mut ge, &budget, &mut out);
+        }
+        schema_ops::containers(&mut g, if thorough { 60000 } else { 4000 }, &mut out);
+        if prop == "C17" {
+            for run in catalogue::schema_pairs() {
+                for _ in 0..(if thorough { 10 } else { 2 }) {
+                    run(&mut g, &mut out);
+                }
+            }
+        }
     }
     if prop == "C02" {
         ops::c02_too_long(&mut out);
